@@ -25,6 +25,7 @@ func runC05(c *Ctx, r *Report) {
 	c05R6(c, r, "C05.R6")
 	c05R7(c, r, "C05.R7")
 	c05UDPDeadline(c, r, "C05.R13")
+	c05TimeoutWiring(c, r, "C05.R14")
 	// "matching is not abandoned before the timeout while some route is undecided": an undecided matcher must say
 	// need-more in the one form the router recognises, otherwise the connection is dropped at once
 	c06R3(c, r, "C05.R8")
